@@ -23,6 +23,7 @@ import (
 	"sync"
 	"sync/atomic"
 	"time"
+	"unicode"
 
 	"github.com/goccy/go-yaml"
 	"github.com/spf13/cast"
@@ -233,6 +234,19 @@ func leaf(v any) string {
 	return fmt.Sprintf("%T:%s", v, b)
 }
 
+// foldNonASCII lower-cases the non-ASCII letters of a key and leaves the ASCII ones alone: the
+// model lower-cases ASCII itself, the Unicode tables are a parameter. A key reaches the model as
+// strings.ToLower would leave it as far as non-ASCII letters go, so code that forgets to fold them
+// (or folds them differently) disagrees with the model.
+func foldNonASCII(s string) string {
+	return strings.Map(func(r rune) rune {
+		if r < 128 {
+			return r
+		}
+		return unicode.ToLower(r)
+	}, s)
+}
+
 func kvsTerm(l *hx.Line, m map[string]any) {
 	keys := make([]string, 0, len(m))
 	for k := range m {
@@ -241,7 +255,7 @@ func kvsTerm(l *hx.Line, m map[string]any) {
 	sort.Strings(keys)
 	l.Nat(len(keys))
 	for _, k := range keys {
-		l.Str(k)
+		l.Str(foldNonASCII(k))
 		if mm, ok := m[k].(map[string]any); ok {
 			l.Tok("M")
 			kvsTerm(l, mm)
@@ -836,7 +850,11 @@ func emit(id string, c caseT, st *hx.Stats) string {
 		return "# skipped " + id + ": config.New: " + err.Error()
 	}
 	zero := renderBound(&Bound{})
-	l := hx.NewLine(id).Tok("CFG").Bool(c.Schema).Nat(c.NV).Bool(c.Bound).Strs(c.Keys)
+	foldedKeys := make([]string, len(c.Keys))
+	for i, k := range c.Keys {
+		foldedKeys[i] = foldNonASCII(k)
+	}
+	l := hx.NewLine(id).Tok("CFG").Bool(c.Schema).Nat(c.NV).Bool(c.Bound).Strs(foldedKeys)
 	if c.Bound {
 		l.Tok("Z").Nat(len(zero))
 		for _, f := range zero {
@@ -1010,7 +1028,7 @@ func emit(id string, c caseT, st *hx.Stats) string {
 
 // ---------------------------------------------------------------- generators
 
-var keyPool = []string{"name", "Name", "NAME", "debug", "Debug", "server", "Server", "SERVER", "level", "rate", "tags", "labels",
+var keyPool = []string{"Über", "über", "ÜBER", "Élan", "élan", "name", "Name", "NAME", "debug", "Debug", "server", "Server", "SERVER", "level", "rate", "tags", "labels",
 	"peer", "a", "A", "b", "a.b", "x-y", "db", "DB", "cache", "Port", "port", "host", "Host", "timeout", "é"}
 
 func genScalar(r *hx.Rand) any {
@@ -1297,9 +1315,9 @@ func genCase(r *hx.Rand, tier string) caseT {
 		// folds É to é; keys with non-ASCII letters are probed as they are)
 		switch r.Intn(3) {
 		case 0:
-			k = mapASCII(k, 'a', 'z', -32)
+			k = strings.ToUpper(k)
 		case 1:
-			k = mapASCII(k, 'A', 'Z', 32)
+			k = strings.ToLower(k)
 		}
 		c.Keys = append(c.Keys, k)
 	}
@@ -1375,6 +1393,11 @@ func fixedCases() []caseT {
 			{Srcs: []srcT{{Kind: "static", M: m("db", m("host", "h", "port", 1))}, {Kind: "map", M: m("db", m("port", 2, "pool", 9))}}},
 			{Srcs: []srcT{{Kind: "static", M: m("db", m("host", "h", "port", 1))}, {Kind: "map", M: m("db", m("port", 3), "vfail0", true)}}},
 			{Srcs: []srcT{{Kind: "static", M: m("db", m("host", "h", "port", 1))}, {Kind: "map", M: m()}}},
+		}},
+		// a key deleted from a JSON file is gone after the reload; keys that differ only in non-ASCII case are one key
+		{Keys: []string{"b", "a", "ÜBER.x"}, Loads: []loadT{
+			{Srcs: []srcT{{Kind: "json", M: m("a", 1, "b", 2, "Über", m("x", 1, "y", 2))}, {Kind: "map", M: m("über", m("x", 0))}}},
+			{Srcs: []srcT{{Kind: "json", M: m("a", 1)}, {Kind: "map", M: m("ÜBER", m("y", false))}}},
 		}},
 		// an environment variable set to the empty string still overrides
 		{Keys: []string{"name", "server.host"}, Loads: []loadT{
